@@ -306,6 +306,10 @@ REGRESSION_PROVER = [
     ('1RB 1LB 2RB 2LB  2LA 2RB 3RB 0LA', 2000),
     # C17-m7 (saturating i32 cast of counts): a rule proved while a changing count is already above 2^31
     ('1RB 2RB 3LA 2RA  2LA 2LB 1LA 3RB', 3000),
+    # C03-m5 / C03-m6 (left-edge exactness of stored rules weakened in get_rule / EnumTape::check_step): a rule proved at
+    # the left tape end meets, a thousand cycles later, a run of zeros / a merged block where the end was
+    ('1RB 0LB  1LA 1RC  0RD 0RC  1RF 0LE  1LE 1LB  0LA ...', 3000),
+    ('0RB 0LB  1LA 1RC  0RD 0RC  1RF 0LE  1LE 1LB  0LA ...', 3000),
 ]
 
 
